@@ -102,6 +102,90 @@ func runC14(c *core.Ctx) {
 			}
 		}
 		c.Min("C14-R1", len(unlinks), 2, "unlink stores in pop (head case and interior case)")
+		// an unlink removes exactly ONE node: the node whose next pointer is overwritten must be the
+		// immediate predecessor of the unlinked node (head store: the unlinked node must be the head
+		// whenever no predecessor was recorded). Proven by coinduction over the scan loop's φ-nodes.
+		isNil := func(v ssa.Value) bool { k, ok := v.(*ssa.Const); return ok && k.Value == nil }
+		nextOf := func(v ssa.Value) ssa.Value { // v == *(&X.next) → X
+			if ld, ok := v.(*ssa.UnOp); ok && ld.Op == token.MUL {
+				if fa, ok := ld.X.(*ssa.FieldAddr); ok && fieldVar(fa) == nextF {
+					return fa.X
+				}
+			}
+			return nil
+		}
+		isHeadLoad := func(v ssa.Value) bool {
+			if ld, ok := v.(*ssa.UnOp); ok && ld.Op == token.MUL {
+				if fa, ok := ld.X.(*ssa.FieldAddr); ok && fieldVar(fa) == headF {
+					return true
+				}
+			}
+			return false
+		}
+		assumed := map[[2]ssa.Value]bool{}
+		var predOf func(a0, b0 ssa.Value, depth int) bool
+		predOf = func(a0, b0 ssa.Value, depth int) bool {
+			if depth > 12 {
+				return false
+			}
+			if assumed[[2]ssa.Value{a0, b0}] {
+				return true
+			}
+			if isNil(b0) {
+				return true // nothing selected: the unlink is not reached with this pair (guarded by the nil return)
+			}
+			if isNil(a0) {
+				return isHeadLoad(b0) // "no predecessor" is only right for the head
+			}
+			if nextOf(b0) == a0 {
+				return true // b = a.next
+			}
+			pa, okA := a0.(*ssa.Phi)
+			pb, okB := b0.(*ssa.Phi)
+			if okA && okB && pa.Block() == pb.Block() {
+				assumed[[2]ssa.Value{a0, b0}] = true
+				for i := range pa.Edges {
+					if !predOf(pa.Edges[i], pb.Edges[i], depth+1) {
+						delete(assumed, [2]ssa.Value{a0, b0})
+						return false
+					}
+				}
+				return true
+			}
+			if okA && !okB {
+				// b fixed, a merges alternatives: every alternative must be b's predecessor
+				for _, e := range pa.Edges {
+					if !predOf(e, b0, depth+1) {
+						return false
+					}
+				}
+				return true
+			}
+			return false
+		}
+		for i, u := range unlinks {
+			fa, ok := u.st.Addr.(*ssa.FieldAddr)
+			if !ok {
+				continue
+			}
+			switch fieldVar(fa) {
+			case nextF:
+				okp := predOf(fa.X, u.node, 0)
+				c.Decide(okp, "C14-R1", fmt.Sprintf("pop|unlink #%d rewires the immediate predecessor", i+1), c.P.Pos(u.st.Pos()), nodeName(a, fa.X)+" is the list predecessor of "+nodeName(a, u.node)+" on every path",
+					"the node whose next pointer is overwritten ("+nodeName(a, fa.X)+") is not provably the immediate predecessor of the unlinked node ("+nodeName(a, u.node)+"): every node between them is cut out of the queue together with it")
+			case headF:
+				// reached only when no predecessor was recorded: then the unlinked node must be the head
+				var priorV ssa.Value
+				for _, v := range unlinks {
+					if f2, ok := v.st.Addr.(*ssa.FieldAddr); ok && fieldVar(f2) == nextF {
+						priorV = f2.X
+					}
+				}
+				okh := priorV != nil && predOf(priorV, u.node, 0)
+				c.Decide(okh, "C14-R1", fmt.Sprintf("pop|unlink #%d at the head removes the head itself", i+1), c.P.Pos(u.st.Pos()), "predecessor nil ⇒ unlinked node is the head",
+					"when no predecessor was recorded the unlinked node is not provably the head: the nodes in front of it are cut out of the queue")
+			}
+		}
 		// returns
 		type retInfo struct {
 			ret   *ssa.Return
